@@ -89,6 +89,8 @@ class OutlineBase(plumpy.WorkChain):
         self.ctx._n = getattr(self.ctx, '_n', 0) + 1  # (a context key may have any name, also one with a leading underscore)
         # ... and, written the dictionary way, any string at all: 'calls-of.<name>' is no identifier
         self.ctx['calls-of.%s' % name] = self.ctx.get('calls-of.%s' % name, 0) + 1
+        # ... or a name that some function on the way may well use for a parameter of its own
+        self.ctx['data'] = {'last': name}
         if kind == 's' and self.inputs.get('midsave'):
             # the step saves the workchain from inside itself (e.g. an extra checkpoint under a tag); the saved state is not used
             plumpy.Bundle(self)
